@@ -213,6 +213,8 @@ type inst struct {
 	// scribble cannot (fields of a proto message: strings, enums, slice headers). It runs once, after the inputs were
 	// scribbled; an observation that changes afterwards is a `retained` finding.
 	mutIn func()
+	// mutLabel (optional) names what mutIn changes in the finding's detail (default "caller-proto-fields")
+	mutLabel string
 	// mutOut (optional) does the same with the structures the operation returned (an exported proto keyset);
 	// it runs after every returned byte slice was scribbled; a changed observation is an `aliased-internal` finding.
 	mutOut func()
@@ -243,6 +245,7 @@ type engine struct {
 	dirty   map[string]int
 	skipped map[string]string
 	cost    map[string]float64 // seconds per api
+	ring    []*held            // results kept from the most recent histories (history.go)
 }
 
 func newEngine(o *hlib.Out) *engine {
@@ -424,7 +427,11 @@ func (e *engine) runLayout(s spec, l layout, baseOuts [][]byte, baseRes, baseObs
 			it.mutIn()
 			if it.observe != nil {
 				if obs := it.observe(); obs != prevObs {
-					add("retained", "caller-proto-fields:%s", diffObs(prevObs, obs))
+					label := it.mutLabel
+					if label == "" {
+						label = "caller-proto-fields"
+					}
+					add("retained", "%s:%s", label, diffObs(prevObs, obs))
 					prevObs = obs
 				}
 			}
@@ -700,7 +707,8 @@ func stableDiff(r1, r2, s string) string {
 //   - "internal:" tokens are functions of Go-internal packages reached through verification hooks only; their
 //     public callers are tested in their own right (and pass library-owned copies);
 //   - the two subtle Ed25519 constructors take a *pointer* to a standard-library key object, i.e. the caller
-//     explicitly shares an object, it does not pass a byte slice.
+//     explicitly shares an object, it does not pass a byte slice;
+//   - keyset.WithAnnotations takes a map (see below).
 func outOfScope(api string) string {
 	if strings.HasPrefix(api, "internal:") {
 		return "internal-package"
@@ -708,6 +716,11 @@ func outOfScope(api string) string {
 	switch api {
 	case "signature/subtle.NewED25519SignerFromPrivateKey", "signature/subtle.NewED25519VerifierFromPublicKey":
 		return "pointer-to-stdlib-key-object"
+	case "keyset.WithAnnotations(callers-map-rewritten-afterwards)":
+		// keyset.WithAnnotations(m) keeps the caller's map (keyset/option.go `h.annotations = annotations`): a handle built
+		// with it follows later rewrites of m. A map[string]string, not a byte slice: recorded as an observation
+		// (reproducer: /verif/seeded/C19-findings/withannotations-map-retained), reported, not a C19 contract line.
+		return "caller-map-not-a-byte-slice"
 	}
 	return ""
 }
